@@ -157,6 +157,20 @@ def triples (num : String → Option Rat) (parseNat : String → Option Nat) (ws
     | _, _, .error e, _ => .error e
     | _, _, _, .error e => .error e
 
+/-- `symmetrize = (graph.attrib['edgedefault'] == 'undirected')` -/
+def Doc.symmetrize (doc : Doc) : Bool := doc.edgedefault == some "undirected"
+
+/-- `naming_nodes = not (graph.attrib['parse.nodeids'] == 'canonical')` -/
+def Doc.naming (doc : Doc) : Bool := !(doc.nodeids == some "canonical")
+
+def Doc.nodes (doc : Doc) : List Child := doc.children.filter isNode
+def Doc.edges (doc : Doc) : List Child := doc.children.filter isEdge
+def Doc.nodeIds (doc : Doc) : List String := doc.nodes.map fun c => c.id.getD ""
+
+/-- ids of the keys that do not carry the weight -/
+def Doc.otherKeys (doc : Doc) (weightKey : String) : List String :=
+  doc.keys.filterMap fun k => if k.name = some weightKey then none else k.id
+
 /-- `from_graphml(file, weight_key)` -/
 def fromGraphml (num : String → Option Rat) (parseNat : String → Option Nat) (weightKey : String) (doc : Doc) :
     Except PyErr Result :=
@@ -168,25 +182,18 @@ def fromGraphml (num : String → Option Rat) (parseNat : String → Option Nat)
   else
     match doc.edgedefault with
     | none => .error .keyError
-    | some ed =>
-      let symmetrize := ed == "undirected"
-      let naming := !(doc.nodeids == some "canonical")
+    | some _ =>
       match weightSpec num weightKey doc.keys ⟨.bool, none, 1⟩ with
       | .error e => .error e
       | .ok ws =>
-        let nodes := doc.children.filter isNode
-        let edges := doc.children.filter isEdge
         -- `node.attrib['id']` is read only when the nodes are named
-        if naming && nodes.any (fun c => c.id.isNone) then .error .keyError
+        if doc.naming && doc.nodes.any (fun c => c.id.isNone) then .error .keyError
         else
-          let nodeIds := nodes.map fun c => c.id.getD ""
-          let otherKeys := doc.keys.filterMap fun k =>
-            if k.name = some weightKey then none else k.id
-          match triples num parseNat ws otherKeys naming symmetrize nodeIds edges with
+          match triples num parseNat ws (doc.otherKeys weightKey) doc.naming doc.symmetrize doc.nodeIds doc.edges with
           | .error e => .error e
           | .ok ts =>
-            let n := nodes.length
+            let n := doc.nodes.length
             if ts.any (fun t => decide (n ≤ t.1) || decide (n ≤ t.2.1)) then .error .valueError
-            else .ok ⟨csrOf ⟨n, n, ws.kind, ts⟩, if naming then some nodeIds else none⟩
+            else .ok ⟨csrOf ⟨n, n, ws.kind, ts⟩, if doc.naming then some doc.nodeIds else none⟩
 
 end SkNet.GraphML
